@@ -154,6 +154,7 @@ type inliner struct {
 	eligible map[*types.Func]bool
 	seq      int
 	curSig   *types.Signature // signature of the function declaration being rewritten
+	curDecl  *ast.FuncDecl
 	scopes   []*types.Scope   // lexical scopes enclosing the node being rewritten (innermost last)
 	closures map[types.Object]*closureInfo
 	count    int
@@ -717,48 +718,210 @@ func (in *inliner) targetOf(ce *ast.CallExpr) *inlTarget {
 	return nil
 }
 
-// paramSubstitutable: the argument names a package-level function (an
-// immutable value) and the parameter is never assigned or has its address
-// taken in the body, and the body declares nothing of the argument's name:
-// the parameter can be replaced by the function name, which keeps calls
-// through it static.
-func (in *inliner) paramSubstitutable(param types.Object, arg ast.Expr, body *ast.BlockStmt) bool {
-	id, ok := arg.(*ast.Ident)
-	if !ok {
-		return false
+// rootIdent: the identifier at the root of a selector/index/deref/paren chain.
+func rootIdent(e ast.Expr) *ast.Ident {
+	for {
+		switch x := e.(type) {
+		case *ast.Ident:
+			return x
+		case *ast.ParenExpr:
+			e = x.X
+		case *ast.SelectorExpr:
+			e = x.X
+		case *ast.IndexExpr:
+			e = x.X
+		case *ast.StarExpr:
+			e = x.X
+		case *ast.SliceExpr:
+			e = x.X
+		default:
+			return nil
+		}
 	}
-	f, ok := in.pkg.TypesInfo.Uses[id].(*types.Func)
-	if !ok || f.Type().(*types.Signature).Recv() != nil || f.Parent() != in.pkg.Types.Scope() {
-		return false
+}
+
+// readOnlyIn: obj (a variable) is only read in n: never assigned (wholly or
+// in part), incremented, address-taken (explicitly, by slicing an array or by
+// a pointer-receiver method call) and, with noClosure, not mentioned in a
+// function literal.
+func (in *inliner) readOnlyIn(obj types.Object, n ast.Node, noClosure bool) bool {
+	info := in.pkg.TypesInfo
+	is := func(e ast.Expr) bool {
+		id := rootIdent(e)
+		return id != nil && (info.Uses[id] == obj || info.Defs[id] == obj)
 	}
 	good := true
-	ast.Inspect(body, func(n ast.Node) bool {
-		switch x := n.(type) {
+	lit := 0
+	var stack []ast.Node
+	ast.Inspect(n, func(m ast.Node) bool {
+		if m == nil {
+			if _, ok := stack[len(stack)-1].(*ast.FuncLit); ok {
+				lit--
+			}
+			stack = stack[:len(stack)-1]
+			return true
+		}
+		stack = append(stack, m)
+		switch x := m.(type) {
+		case *ast.FuncLit:
+			lit++
+		case *ast.Ident:
+			if noClosure && lit > 0 && info.Uses[x] == obj {
+				good = false
+			}
 		case *ast.AssignStmt:
 			for _, l := range x.Lhs {
-				if li, ok := l.(*ast.Ident); ok {
-					if in.pkg.TypesInfo.Uses[li] == param {
-						good = false
+				if is(l) {
+					if id, ok := l.(*ast.Ident); ok && info.Defs[id] == obj {
+						continue // its own declaration
 					}
-					if d := in.pkg.TypesInfo.Defs[li]; d != nil && d.Name() == id.Name {
+					good = false
+				}
+			}
+		case *ast.IncDecStmt:
+			if is(x.X) {
+				good = false
+			}
+		case *ast.RangeStmt:
+			if (x.Key != nil && is(x.Key)) || (x.Value != nil && is(x.Value)) {
+				if x.Tok == token.ASSIGN {
+					good = false
+				}
+			}
+		case *ast.UnaryExpr:
+			if x.Op == token.AND && is(x.X) {
+				good = false
+			}
+		case *ast.SliceExpr:
+			if is(x.X) {
+				if t := info.TypeOf(x.X); t != nil {
+					if _, isArr := t.Underlying().(*types.Array); isArr {
 						good = false
 					}
 				}
 			}
-		case *ast.UnaryExpr:
-			if xi, ok := x.X.(*ast.Ident); ok && x.Op == token.AND && in.pkg.TypesInfo.Uses[xi] == param {
-				good = false
-			}
-		case *ast.IncDecStmt:
-			if xi, ok := x.X.(*ast.Ident); ok && in.pkg.TypesInfo.Uses[xi] == param {
-				good = false
-			}
-		case *ast.Ident:
-			if d := in.pkg.TypesInfo.Defs[x]; d != nil && d.Name() == id.Name {
-				good = false
+		case *ast.SelectorExpr:
+			if sel := info.Selections[x]; sel != nil && sel.Kind() == types.MethodVal && is(x.X) {
+				if _, ptrRecv := sel.Obj().Type().(*types.Signature).Recv().Type().(*types.Pointer); ptrRecv {
+					if _, isPtr := info.TypeOf(x.X).Underlying().(*types.Pointer); !isPtr {
+						good = false // implicit &
+					}
+				}
 			}
 		}
-		return good
+		return true
+	})
+	return good
+}
+
+// declaresName: n declares an object called name (which would capture a substituted identifier).
+func (in *inliner) declaresName(n ast.Node, name string) bool {
+	found := false
+	ast.Inspect(n, func(m ast.Node) bool {
+		if id, ok := m.(*ast.Ident); ok && id.Name == name && in.pkg.TypesInfo.Defs[id] != nil {
+			found = true
+		}
+		return !found
+	})
+	return found
+}
+
+// paramSubstitutable: the parameter can be replaced textually by its argument
+// instead of being bound to a new variable, which keeps the caller's values
+// recognisable:
+//   - the argument names a package-level function (keeps calls through it static);
+//   - the argument is &x for a variable x (the address of a variable is a stable value);
+//   - the parameter is a struct or array passed by value, the argument is a local
+//     variable that is only ever read in the calling function, and the callee only
+//     reads the parameter (so the copy is unobservable).
+// In every case the parameter is never assigned or address-taken in the body,
+// and the body declares nothing with the argument's name.
+func (in *inliner) paramSubstitutable(param types.Object, arg ast.Expr, body *ast.BlockStmt) bool {
+	info := in.pkg.TypesInfo
+	arg = stripParens(arg)
+	var id *ast.Ident
+	kind := ""
+	switch x := arg.(type) {
+	case *ast.Ident:
+		id = x
+		if f, ok := info.Uses[x].(*types.Func); ok && f.Type().(*types.Signature).Recv() == nil && f.Parent() == in.pkg.Types.Scope() {
+			kind = "func"
+		} else if v, ok := info.Uses[x].(*types.Var); ok && !v.IsField() && v.Parent() != in.pkg.Types.Scope() {
+			switch v.Type().Underlying().(type) {
+			case *types.Struct, *types.Array:
+				kind = "value"
+			}
+		}
+	case *ast.UnaryExpr:
+		if y, ok := stripParens(x.X).(*ast.Ident); ok && x.Op == token.AND {
+			if v, ok := info.Uses[y].(*types.Var); ok && !v.IsField() {
+				id, kind = y, "addr"
+			}
+		}
+	}
+	if kind == "" || in.declaresName(body, id.Name) {
+		return false
+	}
+	if !in.readOnlyIn(param, body, false) {
+		return false
+	}
+	if kind == "value" {
+		if in.curDecl == nil || !in.readOnlyAfterInit(info.Uses[id], in.curDecl) {
+			return false
+		}
+	}
+	return true
+}
+
+// readOnlyAfterInit: the local variable is assigned only by its declaration /
+// simple assignments in statements of its own (never in part, never through a
+// pointer, not mentioned in closures).  Whole-variable assignments are allowed:
+// they cannot happen while the callee's body runs.
+func (in *inliner) readOnlyAfterInit(obj types.Object, fd *ast.FuncDecl) bool {
+	info := in.pkg.TypesInfo
+	good := true
+	lit := 0
+	var stack []ast.Node
+	ast.Inspect(fd.Body, func(m ast.Node) bool {
+		if m == nil {
+			if _, ok := stack[len(stack)-1].(*ast.FuncLit); ok {
+				lit--
+			}
+			stack = stack[:len(stack)-1]
+			return true
+		}
+		stack = append(stack, m)
+		switch x := m.(type) {
+		case *ast.FuncLit:
+			lit++
+		case *ast.Ident:
+			if lit > 0 && info.Uses[x] == obj {
+				good = false
+			}
+		case *ast.UnaryExpr:
+			if id := rootIdent(x.X); x.Op == token.AND && id != nil && info.Uses[id] == obj {
+				good = false
+			}
+		case *ast.SliceExpr:
+			if id := rootIdent(x.X); id != nil && info.Uses[id] == obj {
+				if t := info.TypeOf(x.X); t != nil {
+					if _, isArr := t.Underlying().(*types.Array); isArr {
+						good = false
+					}
+				}
+			}
+		case *ast.SelectorExpr:
+			if sel := info.Selections[x]; sel != nil && sel.Kind() == types.MethodVal {
+				if id := rootIdent(x.X); id != nil && info.Uses[id] == obj {
+					if _, ptrRecv := sel.Obj().Type().(*types.Signature).Recv().Type().(*types.Pointer); ptrRecv {
+						if _, isPtr := info.TypeOf(x.X).Underlying().(*types.Pointer); !isPtr {
+							good = false
+						}
+					}
+				}
+			}
+		}
+		return true
 	})
 	return good
 }
@@ -1612,6 +1775,7 @@ func normalizePackage(pk *pkgView, known map[string]bool) (int, []string) {
 				in.curSig, _ = obj.Type().(*types.Signature)
 			}
 			in.scopes = nil
+			in.curDecl = fd
 			in.push(f)
 			in.push(fd.Type)
 			in.findClosures(fd)
